@@ -100,3 +100,6 @@ CHECK["suites"].append(dict(CHECK["suites"][0], name="srvw", extract="Extract/Ex
 import siggen
 CHECK["suites"].append(dict(siggen.suite(siggen.oracle_c01),
                             gen=lambda rng, tier: siggen.gen(rng, tier, *((400, 5, 400, 8) if tier == "quick" else (15000, 100, 10000, 200)))))
+MANIFEST["level_note"] += (" Suite `signed` (oracle-free, no model): correctly signed queries incl. stale-time (BADTIME) ones around the "
+                           "size limits, both transports; requirement: two responses, never a panic.")
+
